@@ -750,7 +750,7 @@ func init() {
 			"non-trivial = push history with a rejection strictly inside a batch AND a capacity clip (push part) / every closure sequence; distinct = literal history.",
 		Assumptions: []string{"no-nesting is off and values are ints/nil under a push policy (the documentation exempts policy-controlled pushes from the no-nesting filter)"},
 		Floors: func(string) map[string]int64 {
-			return map[string]int64{"push-batches": 20000, "rejections": 3000, "histories.mid-batch-rejection-and-capacity-clip": 100, "closure-steps.stack": 5000, "closure-steps.condition": 2000, "basic-refusals": 50}
+			return map[string]int64{"push-batches": 20000, "closure-argument-checks": 250, "cases.with-bystander-goroutines": 3000, "rejections": 3000, "histories.mid-batch-rejection-and-capacity-clip": 100, "closure-steps.stack": 5000, "closure-steps.condition": 2000, "basic-refusals": 50}
 		},
 	})
 }
